@@ -12,7 +12,7 @@ THEOREMS = ["C07_plan_covers_requested_columns", "C13_solve_wellFormed", "C13_so
             "C11_null_range", "C11_string_result", "C10_microdata_rows", "C07_buildTable_columns", "wellFormed_columns",
             "C07_sampleDefault_schema", "C07_cell_fits", "colFits_of_fitted", "C07_synthesize_single_domains",
             "locateColumns_loc", "mergeRow_ok", "buildTable_cells", "materializeTree_fits", "C07_table_domains",
-            "forest_init_names", "C07_sampleDefaultSampled_schema", "shouldSample_spec"]
+            "forest_init_names", "C07_sampleDefaultSampled_schema", "shouldSample_spec", "C07_synthesize_plan_domains"]
 PARTIAL = ["totality (that sample() completes) is not a Lean theorem: the composed model `buildTable` reproduces sample() value for value (S-sampleN) "
            "and the schema clause is proved of it (C07_buildTable_columns: the assembled table has exactly the plan's columns; with "
            "C13_solve_wellFormed / C07_plan_covers_requested_columns: every input column once); cells: decoded per kind, nulls only from the "
